@@ -1,7 +1,317 @@
 import M3d.Basic
-/-! Line-protocol handler for C20. Core-only. (stub) -/
-namespace M3d.Drv.C20
+import M3d.Model.Render
+/-! Line-protocol handler for C20 (render3d). Core-only.
 
-def handleAll (ws : List String) : Option String := none
+Every kind exists in an exact (`…q`, scalar = `Rat`) and/or a bit-for-bit (`…f`, scalar = `Float`)
+variant; the answer printed for a kind is the *specification* value (e.g. the arithmetic mean of the
+samples actually drawn), which `M3d/Props/C20.lean` proves equal to what the faithful model returns. -/
+namespace M3d.Drv.C20
+open M3d M3d.Render
+
+/-- Scalar bundle used by the handlers (parsing/printing + the non-field operations). -/
+structure Sc (α : Type) where
+  parse : String → Option α
+  «show» : α → String
+  cast : Nat → α
+  sqrt : α → Option α
+
+def ratSqrt (q : Rat) : Option Rat :=
+  if q < 0 then none else
+  let n := q.num.toNat
+  let d := q.den
+  let sn := n.sqrt
+  let sd := d.sqrt
+  if sn * sn = n ∧ sd * sd = d then some ((sn : Rat) / (sd : Rat)) else none
+
+def scRat : Sc Rat := ⟨parseRat, showRat, fun n => (n : Rat), ratSqrt⟩
+def scFloat : Sc Float := ⟨floatOfHex, hexOfFloat, Float.ofNat, fun x => some x.sqrt⟩
+
+def parseV3 {α} (p : String → Option α) : List String → Option (V3 α × List String)
+  | a :: b :: c :: rest => do some (⟨← p a, ← p b, ← p c⟩, rest)
+  | _ => none
+
+def showV3 {α} (s : α → String) (v : V3 α) : String := s!"{s v.x} {s v.y} {s v.z}"
+
+def parseV3s {α} (p : String → Option α) : Nat → List String → Option (List (V3 α) × List String)
+  | 0, ws => some ([], ws)
+  | n + 1, ws => do
+    let (v, ws) ← parseV3 p ws
+    let (vs, ws) ← parseV3s p n ws
+    some (v :: vs, ws)
+
+/-- A finite scripted stream as a generator: the state is the number of samples drawn. -/
+def listDraw {α} [OfNat α 0] (xs : List (V3 α)) : Nat → V3 α × Nat :=
+  fun i => (xs.getD i V3.zero, i + 1)
+
+def isPow2 (n : Nat) : Bool := n ≠ 0 && (n &&& (n - 1)) == 0
+
+/-! ### estimateColor -/
+
+/-- `estf _variant _aa N minS maxStd overs mode answers k samples…`  (Float, bit-for-bit).
+Answer: `count  mean  ncalls  lastMean lastStddev`. -/
+def handleEstF (ws : List String) : Option String := do
+  match ws with
+  | _variant :: _aa :: nS :: minS :: maxStd :: overs :: mode :: answers :: k :: rest =>
+    let nS ← nS.toNat?; let minS ← minS.toNat?; let k ← k.toNat?
+    let maxStd ← floatOfHex maxStd; let overs ← floatOfHex overs
+    let (xs, rest) ← parseV3s floatOfHex k rest
+    if !rest.isEmpty then none
+    let scripted := mode == "s"
+    let firstCheck := max minS 2
+    let ans : List Char := if answers == "-" then [] else answers.toList
+    let custom : Option (Nat → V3 Float → V3 Float → Bool) :=
+      if scripted then some (fun n _ _ => ans.getD (n - firstCheck) '0' == '1') else none
+    let hasCheck := minS != 0 && (maxStd != 0 || scripted)
+    let S : Sampler := ⟨nS, minS, hasCheck⟩
+    let conv := codeConv Float.ofNat Float.sqrt maxStd overs custom
+    let (_, _, drawnCount) := estimateColor Float.ofNat S conv (listDraw xs) 0
+    -- specification: the mean of the samples actually drawn, and their number
+    let drawn := xs.take drawnCount
+    let mean := meanOf Float.ofNat drawn
+    let ncalls := if hasCheck && drawnCount ≥ firstCheck then drawnCount - firstCheck + 1 else 0
+    let (lm, ls) : V3 Float × V3 Float :=
+      if ncalls == 0 then (V3.zero, V3.zero)
+      else loopStats Float.ofNat Float.sqrt drawnCount (sumList drawn) (sumList (drawn.map fun s => s.mul s))
+    some (if scripted then
+        s!"{drawnCount} {showV3 hexOfFloat mean} {ncalls} {showV3 hexOfFloat lm} {showV3 hexOfFloat ls}"
+      else s!"{drawnCount} {showV3 hexOfFloat mean}")
+  | _ => none
+
+/-- `estq _variant _aa N minS check answers k samples…`  (Rat, exact).
+Answer: `count mean` where the mean is printed only when `count` is a power of two (then Go's
+`sum * (1/float64(count))` is exact for the dyadic samples generated). -/
+def handleEstQ (ws : List String) : Option String := do
+  match ws with
+  | _variant :: _aa :: nS :: minS :: check :: answers :: k :: rest =>
+    let nS ← nS.toNat?; let minS ← minS.toNat?; let k ← k.toNat?
+    let (xs, rest) ← parseV3s parseRat k rest
+    if !rest.isEmpty then none
+    let firstCheck := max minS 2
+    let ans : List Char := if answers == "-" then [] else answers.toList
+    let hasCheck := minS != 0 && check == "1"
+    let S : Sampler := ⟨nS, minS, hasCheck⟩
+    let conv : Nat → V3 Rat → V3 Rat → Bool := fun n _ _ => ans.getD (n - firstCheck) '0' == '1'
+    let (_, _, drawnCount) := estimateColor (fun n => (n : Rat)) S conv (listDraw xs) 0
+    let drawn := xs.take drawnCount
+    let mean := meanOf (fun n => (n : Rat)) drawn
+    some (if isPow2 drawnCount then s!"{drawnCount} {showV3 showRat mean}" else s!"{drawnCount} -")
+  | _ => none
+
+/-! ### estimateVariance / RayVariance -/
+
+/-- `varf|varq _variant _aa n samples…` -/
+def handleVar {α} [Add α] [Sub α] [Mul α] [Div α] [OfNat α 0] [OfNat α 1] [LT α] [DecidableLT α]
+    (sc : Sc α) (ws : List String) : Option String := do
+  match ws with
+  | _variant :: _aa :: n :: rest =>
+    let n ← n.toNat?
+    let (xs, rest) ← parseV3s sc.parse n rest
+    if !rest.isEmpty then none
+    some (showV3 sc.show (estimateVariance sc.cast (listDraw xs) n 0))
+  | _ => none
+
+def chunks {β} (n : Nat) : Nat → List β → List (List β)
+  | 0, _ => []
+  | k + 1, xs => xs.take n :: chunks n k (xs.drop n)
+
+/-- `rvarf w h n streams…`: `RayVariance` = mean over pixels and channels of the per-pixel variance. -/
+def handleRVar (ws : List String) : Option String := do
+  match ws with
+  | w :: h :: n :: rest =>
+    let w ← w.toNat?; let h ← h.toNat?; let n ← n.toNat?
+    let (xs, rest) ← parseV3s floatOfHex (w * h * n) rest
+    if !rest.isEmpty then none
+    let per := (chunks n (w * h) xs).map fun st => estimateVariance Float.ofNat (listDraw st) n 0
+    let total := per.foldl (fun (acc : Float) c => acc + (c.x + c.y + c.z)) 0
+    some (hexOfFloat (total / Float.ofNat (3 * w * h)))
+  | _ => none
+
+/-! ### mapCoordinates -/
+
+def handleMap (ws : List String) : Option String := do
+  match ws with
+  | [w, h, _procs] =>
+    let w ← w.toNat?; let h ← h.toNat?
+    let cs := coords w h
+    some (if cs.isEmpty then "-" else ";".intercalate (cs.map fun (x, y, i) => s!"{x},{y},{i}"))
+  | _ => none
+
+/-! ### Camera -/
+
+def parseCam {α} (p : String → Option α) (ws : List String) : Option (Camera α × List String) := do
+  let (o, ws) ← parseV3 p ws
+  let (sx, ws) ← parseV3 p ws
+  let (sy, ws) ← parseV3 p ws
+  match ws with
+  | pd :: ws => some (⟨o, sx, sy, ← p pd⟩, ws)
+  | _ => none
+
+/-- `castq cam w h ix iy` (Rat; the one square root taken must be exact). -/
+def handleCastQ (ws : List String) : Option String := do
+  let (cam, ws) ← parseCam parseRat ws
+  match ws with
+  | [w, h, ix, iy] =>
+    let w ← parseRat w; let h ← parseRat h; let ix ← parseRat ix; let iy ← parseRat iy
+    let cr := cam.screenX.cross cam.screenY
+    let _ ← ratSqrt (cr.dot cr)
+    some (showV3 showRat (cam.caster (fun v => (ratSqrt v).getD 0) w h ix iy))
+  | _ => none
+
+/-- `camf cam w h ix iy p` (Float): `axes`, `Caster(w,h)(ix,iy)`, `Uncaster(w,h)(p)`. -/
+def handleCamF (ws : List String) : Option String := do
+  let (cam, ws) ← parseCam floatOfHex ws
+  match ws with
+  | w :: h :: ix :: iy :: rest =>
+    let w ← floatOfHex w; let h ← floatOfHex h; let ix ← floatOfHex ix; let iy ← floatOfHex iy
+    let (p, rest) ← parseV3 floatOfHex rest
+    if !rest.isEmpty then none
+    let (x, y, z) := cam.axes Float.sqrt w h
+    let d := cam.caster Float.sqrt w h ix iy
+    let (ux, uy) := cam.uncaster Float.sqrt w h p
+    some s!"{showV3 hexOfFloat x} {showV3 hexOfFloat y} {showV3 hexOfFloat z} {showV3 hexOfFloat d} {hexOfFloat ux} {hexOfFloat uy}"
+  | _ => none
+
+/-! ### Object wrappers over probe leaves -/
+
+section Tree
+variable {α : Type} [Add α] [Sub α] [Mul α] [Div α] [OfNat α 0] [OfNat α 1] [LT α] [DecidableLT α]
+  [LE α] [DecidableLE α]
+
+structure Affine (α : Type) where
+  mode : Nat
+  a : α
+  w : V3 α
+  v : V3 α
+
+def Affine.value (f : Affine α) (r : Ray α) : α := (f.a + f.w.dot r.origin) + f.v.dot r.dir
+def Affine.ok (f : Affine α) (r : Ray α) : Bool :=
+  f.mode == 1 || (f.mode == 2 && decide (0 ≤ f.value r))
+
+def parseAffine (p : String → Option α) : List String → Option (Affine α × List String)
+  | mode :: a :: ws => do
+    let (w, ws) ← parseV3 p ws
+    let (v, ws) ← parseV3 p ws
+    some (⟨← mode.toNat?, ← p a, w, v⟩, ws)
+  | _ => none
+
+def parseM3 (p : String → Option α) (ws : List String) : Option (M3 α × List String) := do
+  match ← (ws.take 9).mapM p with
+  | [a, b, c, d, e, f, g, h, i] => some (⟨a, b, c, d, e, f, g, h, i⟩, ws.drop 9)
+  | _ => none
+
+mutual
+/-- Prefix expression → the model's `Cast`. -/
+partial def parseTree (p : String → Option α) (sqrt : α → α) : List String → Option (Cast α × List String)
+  | "L" :: id :: ws => do
+    let id ← id.toNat?
+    let (f, ws) ← parseAffine p ws
+    let (n, ws) ← parseV3 p ws
+    some ((fun r => if f.ok r then some ⟨f.value r, n, id⟩ else none), ws)
+  | "J" :: k :: ws => do
+    let (parts, ws) ← parseTrees p sqrt (← k.toNat?) ws
+    some (joinedCast parts, ws)
+  | "F" :: ws => do
+    let (f, ws) ← parseAffine p ws
+    let (o, ws) ← parseTree p sqrt ws
+    some (filteredCast f.ok o, ws)
+  | "T" :: ws => do
+    let (off, ws) ← parseV3 p ws
+    let (o, ws) ← parseTree p sqrt ws
+    some (translatedCast off o, ws)
+  | "M" :: ws => do
+    let (m, ws) ← parseM3 p ws
+    let (o, ws) ← parseTree p sqrt ws
+    some (matrixCast sqrt m m.inverse o, ws)
+  | _ => none
+partial def parseTrees (p : String → Option α) (sqrt : α → α) : Nat → List String → Option (List (Cast α) × List String)
+  | 0, ws => some ([], ws)
+  | k + 1, ws => do
+    let (o, ws) ← parseTree p sqrt ws
+    let (os, ws) ← parseTrees p sqrt k ws
+    some (o :: os, ws)
+end
+
+end Tree
+
+/-- `treef ray expr` (Float, bit-for-bit). -/
+def handleTreeF (ws : List String) : Option String := do
+  let (o, ws) ← parseV3 floatOfHex ws
+  let (d, ws) ← parseV3 floatOfHex ws
+  let (cast, rest) ← parseTree floatOfHex Float.sqrt ws
+  if !rest.isEmpty then none
+  some (match cast ⟨o, d⟩ with
+    | none => "miss"
+    | some h => s!"hit {hexOfFloat h.scale} {showV3 hexOfFloat h.normal} {h.mat}")
+
+/-- `treeq ray expr` (Rat, exact; every normal that is normalised must have a rational length). -/
+def handleTreeQ (ws : List String) : Option String := do
+  let (o, ws) ← parseV3 parseRat ws
+  let (d, ws) ← parseV3 parseRat ws
+  let (cast, rest) ← parseTree parseRat (fun v => (ratSqrt v).getD 0) ws
+  if !rest.isEmpty then none
+  some (match cast ⟨o, d⟩ with
+    | none => "miss"
+    | some h => s!"hit {showRat h.scale} {showV3 showRat h.normal} {h.mat}")
+
+def parseParts : Nat → Nat → List String → Option (List (Cast Float))
+  | 0, _, [] => some []
+  | 0, _, _ => none
+  | k + 1, id, f :: s :: ws => do
+    let s ← floatOfHex s
+    let rest ← parseParts k (id + 1) ws
+    let c : Cast Float := fun _ => if f == "1" then some ⟨s, V3.zero, id⟩ else none
+    some (c :: rest)
+  | _, _, _ => none
+
+/-- `joinf k (found scale)…`: `JoinedObject.Cast` given what each part answered. -/
+def handleJoinF (withMat : Bool) (ws : List String) : Option String := do
+  match ws with
+  | k :: rest =>
+    let parts ← parseParts (← k.toNat?) 0 rest
+    some (match joinedCast parts ⟨V3.zero, V3.zero⟩ with
+      | none => "miss"
+      | some h => if withMat then s!"hit {hexOfFloat h.scale} {h.mat}" else s!"hit {hexOfFloat h.scale}")
+  | _ => none
+
+/-! ### Whole images of a closed uniform emitter -/
+
+/-- `img renderer w h procs N minS maxStd e`. -/
+def handleImg (ws : List String) : Option String := do
+  match ws with
+  | name :: w :: h :: procs :: nS :: minS :: maxStd :: rest =>
+    let w ← w.toNat?; let h ← h.toNat?; let procs ← procs.toNat?
+    let nS ← nS.toNat?; let minS ← minS.toNat?; let maxStd ← floatOfHex maxStd
+    let (e, rest) ← parseV3 floatOfHex rest
+    if !rest.isEmpty then none
+    let value : V3 Float :=
+      if name == "raycaster" then V3.zero.add e
+      else
+        let S : Sampler := ⟨nS, minS, minS != 0 && maxStd != 0⟩
+        (estimateColor Float.ofNat S (codeConv Float.ofNat Float.sqrt maxStd 0 none)
+          (fun (i : Nat) => (e, i + 1)) 0).1
+    let img := renderImage (V3.zero : V3 Float) w h (fun k => k % procs) (fun _ _ => value)
+    let shown := img.map fun c => ",".intercalate (c.toList.map hexOfFloat)
+    match shown with
+    | [] => some ""
+    | first :: _ => if shown.all (· == first) then some s!"{first}*{shown.length}" else none
+  | _ => none
+
+def handleAll (ws : List String) : Option String :=
+  match ws with
+  | "estf" :: rest => handleEstF rest
+  | "estq" :: rest => handleEstQ rest
+  | "varf" :: rest => handleVar scFloat rest
+  | "varq" :: rest => handleVar scRat rest
+  | "rvarf" :: rest => handleRVar rest
+  | "map" :: rest => handleMap rest
+  | "castq" :: rest => handleCastQ rest
+  | "camf" :: rest => handleCamF rest
+  | "treef" :: rest => handleTreeF rest
+  | "treeq" :: rest => handleTreeQ rest
+  | "joinf" :: rest => handleJoinF true rest
+  | "bvhf" :: rest => handleJoinF false rest
+  | "xprim" :: _how :: _kind :: rest => some (" ".intercalate rest)
+  | "img" :: rest => handleImg rest
+  | _ => none
 
 end M3d.Drv.C20
